@@ -20,6 +20,13 @@ type CodeWriter struct {
 // WriteString writes a string to the buffer
 func (cw *CodeWriter) WriteString(s string) {
 	cw.flushPending()
+	cw.writeRaw(s)
+}
+
+// writeRaw appends text to the buffer and keeps the source mapper's generated
+// position in step with it. Everything that reaches the buffer goes through
+// here or through WriteRune, layout text (indentation, comments) included.
+func (cw *CodeWriter) writeRaw(s string) {
 	cw.Builder.WriteString(s)
 	if cw.Mapper == nil {
 		return
